@@ -214,7 +214,8 @@ func c14Counts(tier string) (exh, random, conc int) {
 	return c14Shards, 40, 40 + c14StoreCases(tier)
 }
 
-func c14StoreCases(tier string) int { return tierN(tier, 40, 600) }
+func c14StoreCases(tier string) int { return tierN(tier, 40, 600) + c14SlowCases(tier) }
+func c14SlowCases(tier string) int  { return tierN(tier, 20, 300) }
 
 func init() {
 	run.Register(&run.Check{
@@ -223,7 +224,7 @@ func init() {
 		Race:  true,
 		Cases: func(tier string) int { a, b, c := c14Counts(tier); return a + b + c },
 		Run:   runC14,
-		Rule: "three families on filecache.FileCache with real files: (1) bounded-exhaustive: ALL sequences up to length L (quick 5, thorough 6) over {Open(a|b|c), Close(h) for every currently lent handle, Remove(a|b|c), Clear, SetCacheSize(0|1|2|3)} from initial capacities {0,1,2}; after every step a shadow table of lent handles is used to check: every lent handle is open and refers to its file, legitimate Close returns nil, released-but-open handles <= Len() <= released+lent, Len() <= Cap() when Cap()>0, descriptors under the scratch directory == released-cached + lent, no negative reference count, no panic; (2) random sequences of length 30-200; (3) concurrent stress in the race build: 8 goroutines Open/ReadAt/Close while others Remove/Clear/SetCacheSize, each ReadAt on a handle the goroutine still holds must not fail with ErrClosed, full accounting at quiescence; (4) the cache's users inside the store: a flushed, reopened store with FileCacheSize 1-2 and many small index/primary files is read by 6 Get/Has/GetSize loops while 2 goroutines run whole-store iterations and one toggles SetFileCacheSize - a lookup failing with a closed-file error (or any error, wrong value, panic) means some user gave a handle back while it was still lent to another; every fourth of these cases is the scripted window G21 (reader A parked between obtaining the cached handle of a primary file and reading from it, while reader B's read of a location GC truncated off that file fails; A's read must still succeed). " +
+		Rule: "three families on filecache.FileCache with real files: (1) bounded-exhaustive: ALL sequences up to length L (quick 5, thorough 6) over {Open(a|b|c), Close(h) for every currently lent handle, Remove(a|b|c), Clear, SetCacheSize(0|1|2|3)} from initial capacities {0,1,2}; after every step a shadow table of lent handles is used to check: every lent handle is open and refers to its file, legitimate Close returns nil, released-but-open handles <= Len() <= released+lent, Len() <= Cap() when Cap()>0, descriptors under the scratch directory == released-cached + lent, no negative reference count, no panic; (2) random sequences of length 30-200; (3) concurrent stress in the race build: 8 goroutines Open/ReadAt/Close while others Remove/Clear/SetCacheSize, each ReadAt on a handle the goroutine still holds must not fail with ErrClosed, full accounting at quiescence; (4) the cache's users inside the store: a flushed, reopened store with FileCacheSize 1-2 and many small index/primary files is read by 6 Get/Has/GetSize loops while 2 goroutines run whole-store iterations and one toggles SetFileCacheSize - a lookup failing with a closed-file error (or any error, wrong value, panic) means some user gave a handle back while it was still lent to another; every fourth of these cases is the scripted window G21 (reader A parked between obtaining the cached handle of a primary file and reading from it, while reader B's read of a location GC truncated off that file fails; A's read must still succeed); (5) slow-open overlaps: an Open that blocks inside open(2) (a FIFO opened for reading) is overlapped with SetCacheSize(0|1), Clear, Remove of that name or a resize through 0, then completed by opening the FIFO's write end; the lent handle must be usable and at quiescence open descriptors == Len() <= Cap(). " +
 			"non-trivial iff the case observed an eviction of a lent handle (removed-map path) and a resize through 0; distinct = distinct accounting states (cap, Len, released, lent) seen",
 		Assumptions: []string{
 			"eviction order and over-eviction are deliberately not modelled, only the accounting identities of the statement",
@@ -387,6 +388,10 @@ func runC14(c run.Ctx) *core.CaseResult {
 		}
 	default:
 		if si := c.Index - (nexh + nrand + (map[bool]int{true: 300, false: 40}[c.Tier == "thorough"])); si >= 0 {
+			if sj := si - (c14StoreCases(c.Tier) - c14SlowCases(c.Tier)); sj >= 0 {
+				c14SlowOpen(c, res, sj)
+				return res
+			}
 			if si%4 == 3 {
 				// scripted window: a reader holds a cached handle while another read of that file fails
 				c2 := c
